@@ -107,7 +107,7 @@ def main():
                 'helpers_inlined': list(prog.inlined_helpers), 'helpers_absorbed': sorted(prog.absorbed),
                 'renamed_private_functions': {k: list(v) for k, v in prog.renamed.items()},
                 'results_threaded': dict(getattr(prog, 'threaded', {})), 'side_selections_split': dict(getattr(prog, 'split', {})),
-                'combinators_expanded': dict(getattr(prog, 'expanded', {})),
+                'combinators_expanded': dict(getattr(prog, 'expanded', {})), 'scalarised': dict(getattr(prog, 'scalarised', {})),
             }
             if a.tier == 'thorough' and level == 1:
                 thorough(a, reg, rep)
